@@ -60,13 +60,10 @@ impl SyntaxParserTrait for AssignmentParser {
             let variable = match variable_exist {
                 true => parser.session.variables.borrow().get(&variable_name).unwrap().clone(),
                 false => {
-                    let variable = Rc::new(VariableInfo {
+                    Rc::new(VariableInfo {
                         tokens: parser.tokinizer.tokens[start..end].to_vec(),
                         data: RefCell::new(Rc::new(SmartCalcAstType::None))
-                    });
-        
-                    parser.session.add_variable(variable.clone());
-                    variable
+                    })
                 }
             };
             
